@@ -3,6 +3,7 @@ TLA+ configuration record (`cfg`) are derived (DESIGN.md 4.1).
 
 All time-valued entries are integers (time units); probabilities are numerators over DEN.
 """
+import json
 import math
 import random as _random
 import sys
@@ -266,6 +267,7 @@ def build(sc, ctx):
     kw["batching_distributions"] = bat
     if any(sc["patS"][n][k] for n in range(N) for k in range(K)):
         kw["reneging_time_distributions"] = dists("patS", "pat")
+    sched_objs = {}
     servers = []
     for nd in sc["nodes"]:
         if nd["kind"] in ("std", "ps"):
@@ -273,8 +275,13 @@ def build(sc, ctx):
         elif nd["kind"] == "sched":
             s = nd["sched"]
             pre = {0: False, 1: "resume", 2: "restart", 3: "resample", 4: "reroute"}[s["pre"]]
-            servers.append(ciw.Schedule(numbers_of_servers=list(s["nums"]), shift_end_dates=[tv(sc, e) for e in s["ends"]],
-                                        preemption=pre, offset=float(tv(sc, s["off"]))))
+            # nodes with identical timetables are given the very same Schedule object (a user may well pass one rota
+            # to several nodes): every node must still follow it independently
+            key = json.dumps([s["nums"], s["ends"], s["pre"], s["off"]])
+            if key not in sched_objs:
+                sched_objs[key] = ciw.Schedule(numbers_of_servers=list(s["nums"]), shift_end_dates=[tv(sc, e) for e in s["ends"]],
+                                               preemption=pre, offset=float(tv(sc, s["off"])))
+            servers.append(sched_objs[key])
         elif nd["kind"] == "slot":
             s = nd["slot"]
             pre = {0: False, 1: "resume", 2: "restart", 3: "resample"}[s["pre"]]
